@@ -376,3 +376,7 @@ def extra_obligations(tier):
     except Exception as ex:
         obs.append(dict(name='table:extraction', status='unknown', backend='ast-eval', detail='%s: %s' % (type(ex).__name__, ex), key='table:extraction'))
     return obs
+
+from contracts import graph_utils as _gu
+CONTRACTS.append(_gu.collect_residues('C10', _gu.ATTRS_BONDS))      # as make_bonds calls it
+CONTRACTS.append(_gu.partition_graph('C10'))
